@@ -52,6 +52,7 @@ func (m *Model) RecordReading(val float32) (*traits.MeterReading, error) {
 	return m.UpdateMeterReading(&traits.MeterReading{Usage: val}, resource.InterceptBefore(func(old, new proto.Message) {
 		now := m.meterReading.Clock().Now()
 		newVal := new.(*traits.MeterReading)
+		newVal.StartTime = old.(*traits.MeterReading).StartTime // the reading period started when it started
 		newVal.EndTime = timestamppb.New(now)
 	}))
 }
